@@ -662,7 +662,9 @@ def scenario(rng, profile):
             R.expect_sent = dict(uri=topic, opts=dict(get_retained=gr) if (hids[hid] or gr is not None) else None)
 
             def f():
-                opts = SubscribeOptions(details=True if hids[hid] else None, get_retained=gr) if (hids[hid] or gr is not None) else None
+                # (a handler that does not want details says nothing, None or an explicit False)
+                nod = rng.choice([None, None, False])
+                opts = SubscribeOptions(details=True if hids[hid] else nod, get_retained=gr) if (hids[hid] or gr is not None or nod is False) else None
                 # (check_types wraps the handler in a coroutine function: on asyncio its body then runs one loop iteration after
                 # the library has handed it the event, i.e. after the plain handlers of the same subscription - what the driver
                 # records is when bodies run, so the option is only mixed in where it does not change that: on Twisted)
@@ -712,6 +714,9 @@ def scenario(rng, profile):
                 return
             (sub_id, hid), subl = rng.choice(active)
             sub = rng.choice([x for x in subl if x.active])
+            if s.transport is not None:
+                # (guard: a Subscription that reports itself active is one the session still holds)
+                assert sub in s._subscriptions.get(sub_id, []), "a subscription that was unsubscribed still reports active=True"
             pos = s._subscriptions[sub_id].index(sub) + 1 if s.transport is not None else 1
             R.expect_sent = dict(sub=sub_id)
 
